@@ -726,6 +726,13 @@ theorem C12_load_on_all_up (d : Decl) (h : d.state = .on) :
   · intro s hs; rw [List.mem_replicate] at hs; rw [hs.2]; decide
   · intro a ha; rw [List.mem_replicate] at ha; rw [ha.2]; decide
 
+/-- the duration the loader configures (node loop of `PrimaiteGame.from_config`, pinned by `C12_gen_loader_shapes`): the
+node's own value, else the `defaults:` section's, else 3. `C12_load_inv` / `C12_load_state` hold for ANY integer in
+`Decl.upDur` / `Decl.downDur`, so they hold for whatever this yields. -/
+theorem C12_effective_duration (x y : Int) :
+    effectiveDur (some x) (some y) = x ∧ effectiveDur (some x) none = x ∧ effectiveDur none (some y) = y ∧
+    effectiveDur none none = 3 := ⟨rfl, rfl, rfl, rfl⟩
+
 /-- **episode set-up.** `Network.setup_for_episode` calls `power_on()` on every node whatever its state: afterwards the
 node is ON if `start_up_duration <= 0` (from ANY state — also from SHUTTING_DOWN or BOOTING, see
 `C12_setup_jump`), BOOTING with the full countdown if it was OFF, and otherwise in the state it was in; the invariants
@@ -1143,7 +1150,7 @@ theorem C12_gen_loader_shapes :
   ("Network.setup_for_episode", "for(node in self.nodes.values())[node.setup_for_episode(episode=episode)];for(link in self.links.values())[link.setup_for_episode(episode=episode)];for(node in self.nodes.values())[node.power_on();for(network_interface in node.network_interfaces.values())[network_interface.enable()];for(software in node.software_manager.software.values())[if(isinstance(software, Service))[software.start()]else[if(isinstance(software, Application))[software.run()]]]]"),
   ("Router.setup_for_episode", "self.software_manager.arp.clear();for((i, _) in self.network_interface.items())[self.enable_port(i)];super().setup_for_episode(episode=episode)"),
   ("Router.enable_port", "network_interface = self.network_interface.get(port);if(network_interface)[network_interface.enable()]"),
-  ("PrimaiteGame.from_config.node_loop", "new_node.config.start_up_duration = 0;new_node.config.shut_down_duration = 0;net.add_node(new_node);if(new_node.operating_state == NodeOperatingState.ON)[new_node.power_on()];new_node.config.start_up_duration = int(node_cfg.get('start_up_duration', 3));new_node.config.shut_down_duration = int(node_cfg.get('shut_down_duration', 3))"),
+  ("PrimaiteGame.from_config.node_loop", "new_node.config.start_up_duration = 0;new_node.config.shut_down_duration = 0;net.add_node(new_node);if(new_node.operating_state == NodeOperatingState.ON)[new_node.power_on()];new_node.config.start_up_duration = int(node_cfg.get('start_up_duration', defaults_config.get('node_start_up_duration', 3)));new_node.config.shut_down_duration = int(node_cfg.get('shut_down_duration', defaults_config.get('node_shut_down_duration', 3)))"),
   ("SoftwareManager.install", "if(isinstance(software, Application))[self.node.applications[software.uuid] = software;self.node._application_request_manager.add_request(software.name, RequestType(func=software._request_manager))]else[if(isinstance(software, Service))[self.node.services[software.uuid] = software;self.node._service_request_manager.add_request(software.name, RequestType(func=software._request_manager));software.start()]];software.install();if(isinstance(software, Application))[software.operating_state = ApplicationOperatingState.CLOSED]"),
   ("HostNode.__init__", ""),
   ("Router.__init__", ""),
